@@ -204,10 +204,22 @@ impl Hostile {
                 let id = if rng.chance(4, 5) { rng.range(256, 260) as u16 } else { hostile_id(rng, &self.ix_ids) };
                 let nf = rng.range(0, 6) as usize;
                 p16(&mut o, id);
-                p16(&mut o, if rng.chance(1, 6) { adv16(rng, nf) } else { nf as u16 });
-                p16(&mut o, if rng.chance(1, 3) { adv16(rng, nf / 2) } else { (nf / 2) as u16 });
-                for _ in 0..nf {
-                    o.extend(self.ix_spec(rng, pools, true));
+                if nf > 0 && rng.chance(1, 5) {
+                    // accepted oddity: scope_field_count > field_count, with scope + field
+                    // specifiers actually present
+                    let fc = 1 + rng.usize(nf);
+                    let sc = fc + 1 + rng.usize(3);
+                    p16(&mut o, fc as u16);
+                    p16(&mut o, sc as u16);
+                    for _ in 0..(fc + sc) {
+                        o.extend(self.ix_spec(rng, pools, true));
+                    }
+                } else {
+                    p16(&mut o, if rng.chance(1, 6) { adv16(rng, nf) } else { nf as u16 });
+                    p16(&mut o, if rng.chance(1, 3) { adv16(rng, nf / 2) } else { (nf / 2) as u16 });
+                    for _ in 0..nf {
+                        o.extend(self.ix_spec(rng, pools, true));
+                    }
                 }
                 if rng.chance(1, 2) {
                     o.extend(vec![0u8; rng.usize(4)]);
